@@ -427,7 +427,9 @@ package proxy
 //@ use casketfile/contracts_verif.go:dispenser_api
 //@ func (*staticUpstream).healthCheck
 //@   requires u != nil && u.resolver != nil && forall(k, 0, len(u.Hosts), u.Hosts[k] != nil)
+//@   modifies UpstreamHost.Unhealthy
 //@ func (*staticUpstream).HealthCheckWorker
+//@   modifies UpstreamHost.Unhealthy
 //@   requires u != nil && u.HealthCheck.Interval > 0
 //@   // the pool as its constructor leaves it: a resolver, and backends that exist
 //@   requires u.resolver != nil && forall(k, 0, len(u.Hosts), u.Hosts[k] != nil)
@@ -464,7 +466,7 @@ package proxy
 //@ extern (net/http.Header).Get
 //@   pure
 //@ func NewStaticUpstreams$1
-//@   modifies WaitGroup.noCopy, WaitGroup.sema, WaitGroup.state
+//@   modifies WaitGroup.noCopy, WaitGroup.sema, WaitGroup.state, UpstreamHost.Unhealthy
 //@   requires upstream != nil && upstream.HealthCheck.Interval > 0
 //@   requires upstream.resolver != nil && forall(k, 0, len(upstream.Hosts), upstream.Hosts[k] != nil)
 //@ func NewStaticUpstreams
@@ -569,7 +571,6 @@ package proxy
 //@   ensures result1 == nil ==> (result0 != nil && result0.Body != nil)
 //@ extern net/textproto.CanonicalMIMEHeaderKey
 //@ extern (*sync/atomic.Value).Store
-//@ extern sync/atomic.StoreInt32
 //@ extern net.SplitHostPort
 //@ extern net.JoinHostPort
 //@ extern (*net/url.URL).String
@@ -588,6 +589,9 @@ package proxy
 //@   loop 1 invariant 0 <= #i && #i <= len(addrs) && forall(k, 0, len(addrs), addrs[k] != nil)
 //@ func (*staticUpstream).healthCheck
 //@   requires u != nil && u.resolver != nil && forall(k, 0, len(u.Hosts), u.Hosts[k] != nil)
+//@   // C05: a health probe changes a backend's HEALTH FLAG and nothing else of its state - in particular not the failure
+//@   // counter, which Proxy.ServeHTTP balances itself (every +1 has its delayed -1; a reset in between drives it negative)
+//@   modifies UpstreamHost.Unhealthy
 //@   loop 1 invariant u != nil && u.resolver != nil && forall(k, 0, len(u.Hosts), u.Hosts[k] != nil)
 //@   loop 2 invariant u != nil && u.resolver != nil && forall(k, 0, len(u.Hosts), u.Hosts[k] != nil) && host != nil
 //@ func replacePort
